@@ -38,7 +38,8 @@ JOB_TIMEOUT = {"quick": 2400, "thorough": 7200}
 
 def bounds(tier):
     return {"forest": "p symbolic in [0,1]", "de_moor": "max_demand 1..8 (30 thorough), mean/CoV symbolic", "mirjalili": "(m,Q,D) up to (3,2,3) [(3,3,3) thorough], all 7 weekdays",
-            "hendrix": "(m,Qa,Qb) in {(1,1,1),(1,2,1),(1,2,2)} + (2,1,1),(2,2,1) thorough; all total-stock pairs"}
+            "hendrix": "(m,Qa,Qb) in {(1,1,1),(1,2,1),(1,1,2),(1,2,2)}; thorough adds (2,1,1),(2,2,1) for the identity sum + dropped == 1 only "
+                       "(sign conditions at useful life 2 are not decided by z3's NRA within budget: outside the claim); all total-stock pairs"}
 
 
 def jobs(tier, seed):
@@ -49,7 +50,9 @@ def jobs(tier, seed):
         for w in ((0, 6) if tier == "quick" else range(7)):
             out.append(dict(name=f"mirjalili-m{m}-Q{Q}-D{D}-wd{w}", problem="mirjalili", m=m, Q=Q, D=D, weekday=w, devices=1, cost=5 * m * Q * D))
     for (m, Qa, Qb) in ([(1, 1, 1), (1, 2, 1), (1, 1, 2), (1, 2, 2)] if tier == "quick" else [(1, 1, 1), (1, 2, 1), (1, 2, 2), (1, 1, 2), (2, 1, 1), (2, 2, 1)]):
-        out.append(dict(name=f"hendrix-m{m}-Qa{Qa}-Qb{Qb}", problem="hendrix", m=m, Qa=Qa, Qb=Qb, devices=1, cost=60 * m * Qa * Qb))
+        # useful life 2: the sign conditions are degree-4 polynomial inequalities in ~40 symbols that z3's NRA does not
+        # decide within the job budget; only the (polynomial identity) sum + dropped == 1 is claimed there
+        out.append(dict(name=f"hendrix-m{m}-Qa{Qa}-Qb{Qb}", problem="hendrix", m=m, Qa=Qa, Qb=Qb, signs=(m == 1), devices=1, cost=60 * m * Qa * Qb))
     # concrete leg: instances created after sibling instances (one parameter changed each) in the same process
     out.append(dict(name="after-siblings-forest", problem="forest", history=True, devices=1, cost=5))
     out.append(dict(name="after-siblings-de_moor-D3", problem="de_moor", D=3, history=True, devices=1, cost=30))
@@ -168,7 +171,7 @@ def run_hendrix(job, ob):
             tot = Fraction(0)
             for ev, p in code.items():
                 tot = zx.add(tot, p)
-                if zx.is_z(p):
+                if zx.is_z(p) and job.get("signs", True):
                     ob.prove(f"nonneg[{sa},{sb},{ev}]", cons, zx.ge(p, 0), cex=cex, kind="event probability >= 0", direct=True, timeout_ms=30000)
             # identity: sum over events + mass of the dropped outcome region == 1 (binomial rows substituted so that it is polynomial)
             sub = []
@@ -177,8 +180,9 @@ def run_hendrix(job, ob):
             lhs = z3.simplify(z3.substitute(zx.Z(zx.add(tot, dropped)), *sub))
             ob.prove(f"sum+dropped==1[{sa},{sb}]", [], lhs == 1, cex=cex, kind="sum over events == 1 - mass of the model's truncated outcome region", direct=True)
             # the property as stated: the probabilities sum to one.  Known not to hold for Hendrix (truncated tables), see known_findings.json
-            ob.prove(f"sum==1[{sa},{sb}]", cons, zx.eq(dropped, 0), cex=cex, kind="event probabilities sum to 1", direct=True, timeout_ms=30000)
-            ob.prove(f"no-duplicated-mass[{sa},{sb}]", cons, zx.le(tot, 1), cex=cex, kind="sum over events <= 1", direct=True, timeout_ms=30000)
+            if job.get("signs", True):
+                ob.prove(f"sum==1[{sa},{sb}]", cons, zx.eq(dropped, 0), cex=cex, kind="event probabilities sum to 1", direct=True, timeout_ms=30000)
+                ob.prove(f"no-duplicated-mass[{sa},{sb}]", cons, zx.le(tot, 1), cex=cex, kind="sum over events <= 1", direct=True, timeout_ms=30000)
     return ob.result()
 
 
